@@ -145,6 +145,9 @@ def screen(d, prop, tier, seed="0", base=None):
         shutil.rmtree(keep, ignore_errors=True)
         os.makedirs("/tmp/vrun", exist_ok=True)
         shutil.copytree("/verif", vr, ignore=shutil.ignore_patterns("out", ".git", "proto", "seeded"))
+        os.makedirs(os.path.join(vr, "out"), exist_ok=True)
+        if os.path.isdir("/verif/out/tlccache"):     # generator outputs depend on spec/ only: share them
+            os.symlink("/verif/out/tlccache", os.path.join(vr, "out", "tlccache"))
         env = dict(ENV, VERIF_REPO=wt, VERIF_SEED=seed, VERIF_TIER=tier, VERIF_KEEP=keep)
         rc, out = sh(f"./vcheck {prop} {tier}", cwd=vr, timeout=4 * 3600, env=env)
         viol = [l for l in out.splitlines() if l.startswith("VIOLATION")]
